@@ -33,6 +33,7 @@ func init() {
 			"two thirds of the cases focus one catalogue attribute (round robin over every service / resource attribute path), one third split ~10 attributes at once; " +
 			"each attribute's final value is decomposed into 2..4 parts (decoy-then-target, key-wise with stale and exact-duplicate entries, consecutive chunks, chunk with duplicate, list|mapping|string spelling per part, silence, !reset, !override) " +
 			"carried as separate files, `---` documents of one file, or a mix; the project loaded from the parts must equal the project loaded from the single target document. " +
+			"Hand-shaped families on top: a short list between two layers of which the later refines one entry; an attribute emptied (`[]`) by the middle one of three layers; a mount target spelled uncleanly by the later layer. " +
 			"A case is non-trivial when at least one attribute is mentioned by >= 2 parts and both loads succeed; distinct = distinct split inputs.",
 		Assumptions: []string{
 			"the single-document load of the target is the oracle (it involves no merging); defects that affect single-document loading identically on both sides are invisible here",
